@@ -2,6 +2,7 @@
 """Dev tool: execute single run indices in-process with full tracebacks.  tools/one.py C18 0 1 2"""
 import sys, os, json, warnings, logging
 sys.path.insert(0, "/verif"); os.chdir("/verif")
+if os.environ.get("VERIF_REPO"): sys.path.insert(0, os.environ["VERIF_REPO"])
 warnings.filterwarnings("ignore")
 logging.getLogger("fairlearn").addHandler(logging.NullHandler()); logging.getLogger("fairlearn").propagate = False
 from sim import kernel
